@@ -308,13 +308,13 @@ impl Property for C06 {
     }
     fn plan(&self, tier: Tier) -> Vec<Segment> {
         vec![
-            Segment::random("histories", tier.pick(150_000, 2_000_000), &[0], 8, 600),
-            Segment::random("histories-long-vectors", tier.pick(30_000, 300_000), &[1], 8, 600),
+            Segment::random("histories", tier.pick(450_000, 16_000_000), &[0], 8, 600),
+            Segment::random("histories-long-vectors", tier.pick(90_000, 2_400_000), &[1], 8, 600),
             Segment::enumerated("huge(>2^32 bits)", tier.pick(2, 6), &[9]),
         ]
     }
     fn rule(&self) -> &'static str {
-        "case = (construction route, <=60 ops) decoded from bytes; model = Vec<bool>; whole observable state (len, iter, get/index of every position) compared after every op. Non-trivial: a shrink (pop/resize down) followed by an observation of ones/zeros/count/equality, or a fill/flip/reset mixed with a push/resize; distinct = distinct hash of the decoded history."
+        "case = (construction route, <=60 ops incl. a Scribble op that writes garbage through the safe AsMut<[usize]> into the backend bits beyond len) decoded from bytes; model = Vec<bool>; whole observable state (len, iter, get/index of every position) compared after every op. Non-trivial: a shrink (pop/resize down) followed by an observation of ones/zeros/count/equality, or a fill/flip/reset mixed with a push/resize; distinct = distinct hash of the decoded history."
     }
     fn run(&self, data: &[u8], cx: &mut Ctx) -> R {
         let (mode, rest) = data.split_first().unwrap_or((&0, &[]));
